@@ -7,53 +7,83 @@ import (
 	"verif/internal/mon"
 )
 
-// WaitSpec describes the second scenario family: ONE thread object is waited for by several
-// goroutines at the same time. Per round the script spawns a target call returning a value that
-// is unique to the round, hands the thread object to W waiter goroutines (as an argument,
-// captured by a closure, or through a channel), lets the call finish around the moment the
-// waits start (a gate closed by the spawner, or a work loop of varying length), and collects
-// what every wait() gave: each waiter waits twice, the spawner itself waits too.
+// WaitSpec describes the second scenario family: ONE thread object is waited for repeatedly, by
+// the spawner and by 0..4 further goroutines at the same time. Per round the script spawns a
+// target call whose outcome is unique to the round, hands the thread object to the waiter
+// goroutines (as an argument, captured by a closure, or through a channel), lets the call finish
+// around the moment the waits start (a gate closed by the spawner, or a work loop of varying
+// length), and records what every wait gave. HOW each wait is performed varies per wait (plain
+// call inside a function literal under try, the bound builtin handed to try with and without a
+// handler, call(t.wait), the builtin stored in a variable, the builtin spawned as a thread of its
+// own, the wait made in yet another goroutine with the result passed through a channel), in a
+// seed-determined order across the repeated waits of every goroutine.
 //
-// Oracle (values only, nothing depends on time): every wait() on the thread gives exactly what
-// the spawned call returned – the same value for every waiter and every repetition, never a
-// missing object, never an error unless the call raised (then the same message for everybody).
+// Oracle (values only, nothing depends on time): every wait on the thread gives exactly the
+// spawned call's outcome – the same KIND (returned value vs raised error; an error VALUE returned
+// by the call stays a returned value) and the same content for every waiter and every
+// repetition, whatever the earlier waits were; never a missing object.
 type WaitSpec struct {
-	Rounds  int    `json:"rounds"`
-	Waiters int    `json:"waiters"` // concurrent waiter goroutines (the spawner waits in addition)
-	Forms   []string `json:"forms"` // per waiter: go | spawn | method
-	Pass    string `json:"pass"`    // args | capture | chan : how the waiters get the thread object
-	Gate    string `json:"gate"`    // gate: the call blocks until the spawner closes a channel | work: it computes
-	Work    int    `json:"work"`    // loop iterations of the target call
-	WorkY   int    `json:"work_y"`  // the target yields every k-th iteration (0: never)
-	Lag     []int  `json:"lag"`     // per waiter: yields before its first wait()
-	PreGate int    `json:"pre_gate"` // yields of the spawner before it opens the gate / starts waiting
-	Ret     string `json:"ret"`     // int | list | str | raise
-	Target  string `json:"target"`  // spawn | method : how the target is started
-	MainIn  bool   `json:"main_in"` // the spawner's own first wait() happens before it joins the waiters
-	X0      int    `json:"x0"`      // round i uses the unique id X0+i
+	Rounds   int        `json:"rounds"`
+	Waiters  int        `json:"waiters"`   // concurrent waiter goroutines (the spawner waits in addition); 0 = control
+	Forms    []string   `json:"forms"`     // per waiter: go | spawn | method
+	Styles   [][]string `json:"styles"`    // per waiter: how each of its successive waits is performed
+	MainPre  []string   `json:"main_pre"`  // the spawner's waits while the waiters run
+	MainPost []string   `json:"main_post"` // the spawner's waits after it joined the waiters
+	Pass     string     `json:"pass"`      // args | capture | chan : how the waiters get the thread object
+	Gate     string     `json:"gate"`      // gate: the call blocks until the spawner closes a channel | work: it computes
+	Work     int        `json:"work"`      // loop iterations of the target call
+	WorkY    int        `json:"work_y"`    // the target yields every k-th iteration (0: never)
+	Lag      []int      `json:"lag"`       // per waiter: yields before its first wait
+	PreGate  int        `json:"pre_gate"`  // yields of the spawner before it opens the gate / starts waiting
+	Ret      string     `json:"ret"`       // int | list | str | errval | raise | rterr
+	Target   string     `json:"target"`    // spawn | method : how the target is started
+	X0       int        `json:"x0"`        // round i uses the unique id X0+i
+}
+
+// Wait styles. The first letter of the observation tag says how the result is to be read:
+//
+//	s  strong:  ["val", v] or ["raised", message]
+//	h  handler: the value itself, or ["raised", message] made by try's handler
+//	b  bare:    the value itself, or nil when the wait raised (try without handler)
+var waitStyles = []string{"lit", "lit", "call", "var", "boundh", "boundh", "bound", "relayb", "relayf", "chan"}
+
+func genStyles(r *mon.Rand, n int) []string {
+	out := make([]string, n)
+	for i := range out {
+		out[i] = mon.Pick(r, waitStyles)
+	}
+	return out
 }
 
 func genWaitScenario(r *mon.Rand, idx int, thorough bool) Scenario {
 	s := Scenario{Seed: r.Uint64(), Scope: "global"}
 	s.Procs = procsChoices[idx%len(procsChoices)]
 	w := &WaitSpec{}
-	w.Rounds = r.Range(20, 40)
+	w.Rounds = r.Range(16, 30)
 	if thorough && r.Chance(1, 4) {
 		w.Rounds = r.Range(60, 150)
 	}
-	w.Waiters = mon.Pick(r, []int{2, 2, 2, 3, 3, 4, 1})
+	w.Waiters = mon.Pick(r, []int{2, 2, 2, 3, 3, 4, 1, 0})
 	for i := 0; i < w.Waiters; i++ {
 		w.Forms = append(w.Forms, mon.Pick(r, []string{"spawn", "spawn", "method", "go"}))
 		w.Lag = append(w.Lag, mon.Pick(r, []int{0, 0, 0, 1, 3, 10}))
+		w.Styles = append(w.Styles, genStyles(r, r.Range(2, 3)))
+	}
+	if r.Chance(1, 2) {
+		w.MainPre = genStyles(r, r.Range(1, 2))
+	}
+	w.MainPost = genStyles(r, r.Range(2, 3))
+	if w.Waiters == 0 {
+		// control: one goroutine, repeated waits in every order of styles
+		w.MainPost = genStyles(r, r.Range(3, 5))
 	}
 	w.Pass = mon.Pick(r, []string{"args", "capture", "chan"})
 	w.Gate = mon.Pick(r, []string{"gate", "gate", "work"})
 	w.Work = mon.Pick(r, []int{0, 0, 1, 5, 20, 100})
 	w.WorkY = mon.Pick(r, []int{0, 0, 1, 3})
 	w.PreGate = mon.Pick(r, []int{0, 0, 1, 2, 5, 20})
-	w.Ret = mon.Pick(r, []string{"int", "int", "list", "str", "raise"})
+	w.Ret = mon.Pick(r, []string{"int", "list", "str", "errval", "raise", "raise", "rterr"})
 	w.Target = mon.Pick(r, []string{"spawn", "method"})
-	w.MainIn = r.Chance(1, 2)
 	w.X0 = 1000 * (1 + r.Intn(900))
 	s.W = w
 	return s
@@ -63,16 +93,54 @@ func (w *WaitSpec) class() string {
 	return fmt.Sprintf("waiters=%d:pass=%s:%s:ret=%s", w.Waiters, w.Pass, w.Gate, w.Ret)
 }
 
-func (w *WaitSpec) distinctKey(procs int) string {
-	return fmt.Sprintf("wait|W%d|%s|%s|%s|forms=%s|target=%s|main_in=%v|P%d", w.Waiters, w.Pass, w.Gate, w.Ret, strings.Join(w.Forms, ","), w.Target, w.MainIn, procs)
+func (w *WaitSpec) styleKey() string {
+	var parts []string
+	for _, st := range w.Styles {
+		parts = append(parts, strings.Join(st, ">"))
+	}
+	return strings.Join(parts, "|") + "/" + strings.Join(w.MainPre, ">") + "/" + strings.Join(w.MainPost, ">")
 }
+
+func (w *WaitSpec) distinctKey(procs int) string {
+	return fmt.Sprintf("wait|W%d|%s|%s|%s|forms=%s|target=%s|styles=%s|P%d", w.Waiters, w.Pass, w.Gate, w.Ret, strings.Join(w.Forms, ","), w.Target, w.styleKey(), procs)
+}
+
+const raisedHandler = `func(e) { return ["raised", e.message()] }`
 
 // renderWaiters produces the program. Every closure captures only variables of its directly
 // enclosing function (one level), every round is its own activation of round().
 func (s *Scenario) renderWaiters() string {
 	w := s.W
 	b := &sb{}
-	b.ln("func waitres(t) { return try(func() { return [\"val\", t.wait()] }, func(e) { return [\"raised\", e.message()] }) }")
+	raw := func(l string) { b.ln("%s", l) }
+	raw("import errors")
+	// one observation function per wait style
+	raw(`func o_lit(t) { return ["s", try(func() { return ["val", t.wait()] }, ` + raisedHandler + `)] }`)
+	raw(`func o_call(t) { return ["s", try(func() { return ["val", call(t.wait)] }, ` + raisedHandler + `)] }`)
+	raw(`func o_var(t) {`)
+	raw(`  w := t.wait`)
+	raw(`  return ["s", try(func() { return ["val", w()] }, ` + raisedHandler + `)]`)
+	raw(`}`)
+	raw(`func o_boundh(t) { return ["h", try(t.wait, ` + raisedHandler + `)] }`)
+	raw(`func o_bound(t) { return ["b", try(t.wait)] }`)
+	raw(`func o_relayb(t) {`)
+	raw(`  h := spawn(t.wait)`)
+	raw(`  return ["s", try(func() { return ["val", h.wait()] }, ` + raisedHandler + `)]`)
+	raw(`}`)
+	raw(`func o_relayf(t) {`)
+	raw(`  h := spawn(func() { return t.wait() })`)
+	raw(`  return ["s", try(func() { return ["val", h.wait()] }, ` + raisedHandler + `)]`)
+	raw(`}`)
+	raw(`func o_chan(t) {`)
+	raw(`  c := chan(1)`)
+	raw(`  go func() {`)
+	raw(`    v := try(t.wait, ` + raisedHandler + `)`)
+	raw(`    c <- v`)
+	raw(`  }()`)
+	raw(`  r := <-c`)
+	raw(`  return ["h", r]`)
+	raw(`}`)
+	raw(`func joinres(h) { return try(func() { return ["val", h.wait()] }, ` + raisedHandler + `) }`)
 	// target call
 	b.ln("func target(gate, x, work) {")
 	b.ind++
@@ -93,43 +161,51 @@ func (s *Scenario) renderWaiters() string {
 	b.ln("}")
 	switch w.Ret {
 	case "int":
-		b.ln("return x * 3 + 7")
+		raw("return x * 3 + 7")
 	case "list":
-		b.ln("return [x, \"r\", x + 1]")
+		raw(`return [x, "r", x + 1]`)
 	case "str":
-		b.ln("return \"r\" + string(x)")
+		raw(`return "r" + string(x)`)
+	case "errval":
+		raw(`return errors.new("ev " + string(x))`) // an error VALUE: returned, not raised
 	case "raise":
-		b.ln("%s", "error(\"target %d failed\", x)")
+		raw(`error("target %d failed", x)`)
+	case "rterr":
+		raw(`l := [1, 2, 3]`)
+		raw(`return l[x]`) // x ≥ 1000: index error carrying x
 	}
 	b.ind--
 	b.ln("}")
-	// waiter functions (argument-passing and channel-passing forms)
-	b.ln("func waiter(t, wid, lag) {")
-	b.ln("  for j := 0; j < lag; j++ { yield() }")
-	b.ln("  r1 := waitres(t)")
-	b.ln("  r2 := waitres(t)")
-	b.ln("  return [wid, r1, r2]")
-	b.ln("}")
-	b.ln("func waiter_go(t, wid, lag, rd) {")
-	b.ln("  for j := 0; j < lag; j++ { yield() }")
-	b.ln("  r1 := waitres(t)")
-	b.ln("  r2 := waitres(t)")
-	b.ln("  rd <- [wid, r1, r2]")
-	b.ln("}")
-	b.ln("func waiter_ch(hc, wid, lag) {")
-	b.ln("  t := <-hc")
-	b.ln("  for j := 0; j < lag; j++ { yield() }")
-	b.ln("  r1 := waitres(t)")
-	b.ln("  r2 := waitres(t)")
-	b.ln("  return [wid, r1, r2]")
-	b.ln("}")
-	b.ln("func waiter_ch_go(hc, wid, lag, rd) {")
-	b.ln("  t := <-hc")
-	b.ln("  for j := 0; j < lag; j++ { yield() }")
-	b.ln("  r1 := waitres(t)")
-	b.ln("  r2 := waitres(t)")
-	b.ln("  rd <- [wid, r1, r2]")
-	b.ln("}")
+	// one function per waiter (each has its own sequence of wait styles)
+	for i := 0; i < w.Waiters; i++ {
+		wid := i + 1
+		viaChan := w.Pass == "chan"
+		first := "t"
+		if viaChan {
+			first = "hc"
+		}
+		if w.Forms[i] == "go" {
+			b.ln("func waiter%d(%s, lag, rd) {", wid, first)
+		} else {
+			b.ln("func waiter%d(%s, lag) {", wid, first)
+		}
+		b.ind++
+		if viaChan {
+			b.ln("t := <-hc")
+		}
+		b.ln("for j := 0; j < lag; j++ { yield() }")
+		b.ln("obs := []")
+		for _, st := range w.Styles[i] {
+			b.ln("obs.append(o_%s(t))", st)
+		}
+		if w.Forms[i] == "go" {
+			b.ln("rd <- [%d, obs]", wid)
+		} else {
+			b.ln("return [%d, obs]", wid)
+		}
+		b.ind--
+		b.ln("}")
+	}
 
 	b.ln("func round(x) {")
 	b.ind++
@@ -154,37 +230,30 @@ func (s *Scenario) renderWaiters() string {
 		if form == "go" {
 			ngo++
 		}
-		switch w.Pass {
-		case "args":
-			switch form {
-			case "spawn":
-				b.ln("ws.append(spawn(waiter, t, %d, %d))", wid, w.Lag[i])
-			case "method":
-				b.ln("ws.append(waiter.spawn(t, %d, %d))", wid, w.Lag[i])
-			case "go":
-				b.ln("go waiter_go(t, %d, %d, rd)", wid, w.Lag[i])
-			}
-		case "capture":
+		h := "t"
+		if w.Pass == "chan" {
+			h = "hc" // the waiters exist before the thread does and get it through a channel
+		}
+		if w.Pass == "capture" {
 			// the closure captures t (and rd) of this round's activation
 			switch form {
 			case "spawn":
-				b.ln("ws.append(spawn(func() { return waiter(t, %d, %d) }))", wid, w.Lag[i])
+				b.ln("ws.append(spawn(func() { return waiter%d(t, %d) }))", wid, w.Lag[i])
 			case "method":
-				b.ln("f%d := func() { return waiter(t, %d, %d) }", wid, wid, w.Lag[i])
+				b.ln("f%d := func() { return waiter%d(t, %d) }", wid, wid, w.Lag[i])
 				b.ln("ws.append(f%d.spawn())", wid)
 			case "go":
-				b.ln("go func() { waiter_go(t, %d, %d, rd) }()", wid, w.Lag[i])
+				b.ln("go func() { waiter%d(t, %d, rd) }()", wid, w.Lag[i])
 			}
-		case "chan":
-			// the waiters exist before the thread does and get it through a channel
-			switch form {
-			case "spawn":
-				b.ln("ws.append(spawn(waiter_ch, hc, %d, %d))", wid, w.Lag[i])
-			case "method":
-				b.ln("ws.append(waiter_ch.spawn(hc, %d, %d))", wid, w.Lag[i])
-			case "go":
-				b.ln("go waiter_ch_go(hc, %d, %d, rd)", wid, w.Lag[i])
-			}
+			continue
+		}
+		switch form {
+		case "spawn":
+			b.ln("ws.append(spawn(waiter%d, %s, %d))", wid, h, w.Lag[i])
+		case "method":
+			b.ln("ws.append(waiter%d.spawn(%s, %d))", wid, h, w.Lag[i])
+		case "go":
+			b.ln("go waiter%d(%s, %d, rd)", wid, h, w.Lag[i])
 		}
 	}
 	if w.Pass == "chan" {
@@ -197,18 +266,19 @@ func (s *Scenario) renderWaiters() string {
 	if w.Gate == "gate" {
 		b.ln("close(gate)")
 	}
-	b.ln("m1 := nil")
-	if w.MainIn {
-		b.ln("m1 = waitres(t)")
+	b.ln("mobs := []")
+	for _, st := range w.MainPre {
+		b.ln("mobs.append(o_%s(t))", st)
 	}
 	b.ln("wr := []")
-	b.ln("for _, h := range ws { wr.append(waitres(h)) }")
+	b.ln("for _, h := range ws { wr.append(joinres(h)) }")
 	if ngo > 0 {
 		b.ln("for i := 0; i < %d; i++ { wr.append([\"val\", <-rd]) }", ngo)
 	}
-	b.ln("m2 := waitres(t)")
-	b.ln("m3 := waitres(t)")
-	b.ln("return [x, wr, m1, m2, m3]")
+	for _, st := range w.MainPost {
+		b.ln("mobs.append(o_%s(t))", st)
+	}
+	b.ln("return [x, wr, mobs]")
 	b.ind--
 	b.ln("}")
 	b.ln("out := []")
@@ -217,6 +287,8 @@ func (s *Scenario) renderWaiters() string {
 	return b.String()
 }
 
+// expected outcome of the target call of round id x. For a runtime error only the kind and the
+// presence of x in the message are pinned (plus: the same text for every wait of the round).
 func (w *WaitSpec) expected(x int) (kind string, val any) {
 	switch w.Ret {
 	case "int":
@@ -225,11 +297,15 @@ func (w *WaitSpec) expected(x int) (kind string, val any) {
 		return "val", []any{x, "r", x + 1}
 	case "str":
 		return "val", fmt.Sprintf("r%d", x)
+	case "errval":
+		return "val", map[string]any{"errval": fmt.Sprintf("ev %d", x)}
+	case "rterr":
+		return "raised", nil
 	}
 	return "raised", fmt.Sprintf("target %d failed", x)
 }
 
-// describeWait classifies what a wait() gave instead of the expected outcome.
+// describeWait classifies what a wait gave instead of the expected outcome.
 func describeWait(kind string, val any, wantKind string) string {
 	if m, ok := val.(map[string]any); ok && m["gonil"] == true {
 		return "no-object"
@@ -252,6 +328,19 @@ func describeWait(kind string, val any, wantKind string) string {
 	return "other-value"
 }
 
+// asRaised recognises the record ["raised", message] produced by the scripts' try handler.
+func asRaised(x any) (string, bool) {
+	p, ok := asList(x)
+	if !ok || len(p) != 2 {
+		return "", false
+	}
+	if k, _ := p[0].(string); k != "raised" {
+		return "", false
+	}
+	m, ok := p[1].(string)
+	return m, ok
+}
+
 func judgeWaiters(s *Scenario, o *Obs, v *verdict) {
 	w := s.W
 	rounds, ok := asList(o.Value)
@@ -262,15 +351,18 @@ func judgeWaiters(s *Scenario, o *Obs, v *verdict) {
 	sigSeen := map[string]bool{}
 	report := func(what, f string, a ...any) {
 		sig := "wait:concurrent-waiters:" + what + ":ret=" + w.Ret
+		if w.Waiters == 0 {
+			sig = "wait:repeated:" + what + ":ret=" + w.Ret
+		}
 		if sigSeen[sig] {
 			return // one witness per class and run
 		}
 		sigSeen[sig] = true
-		v.add(sig, "%s (%s, %d concurrent waiter goroutines %v + the spawner, thread passed by %s, GOMAXPROCS %d)", fmt.Sprintf(f, a...), w.Gate, w.Waiters, w.Forms, w.Pass, s.Procs)
+		v.add(sig, "%s (%s, %d concurrent waiter goroutines %v + the spawner, thread passed by %s, waits performed as %s, GOMAXPROCS %d)", fmt.Sprintf(f, a...), w.Gate, w.Waiters, w.Forms, w.Pass, w.styleKey(), s.Procs)
 	}
 	for ri, rx := range rounds {
 		r, ok := asList(rx)
-		if !ok || len(r) != 5 {
+		if !ok || len(r) != 3 {
 			v.add("result-shape:waiters", "round %d returned %s", ri, show(rx))
 			return
 		}
@@ -280,23 +372,71 @@ func judgeWaiters(s *Scenario, o *Obs, v *verdict) {
 			return
 		}
 		wantKind, wantVal := w.expected(x)
-		checkWait := func(who string, wr any) {
-			p, ok := asList(wr)
-			if !ok || len(p) != 2 {
-				report("malformed", "round %d (id %d): %s recorded %s for a wait()", ri, x, who, show(wr))
-				return
-			}
-			kind, _ := p[0].(string)
+		rtMsg := "" // runtime error: the first message seen in this round
+		// judgeOutcome compares a normalised (kind, value) with the call's outcome
+		judgeOutcome := func(who, how, kind string, val any) {
 			v.Events["concurrent_waits_checked"]++
-			if kind == wantKind && jsonEq(p[1], wantVal) {
+			good := false
+			switch {
+			case w.Ret == "rterr":
+				if msg, isStr := val.(string); kind == "raised" && isStr && strings.Contains(msg, fmt.Sprint(x)) {
+					if rtMsg == "" {
+						rtMsg = msg
+					}
+					good = msg == rtMsg
+				}
+			default:
+				good = kind == wantKind && jsonEq(val, wantVal)
+			}
+			if good {
 				return
 			}
-			report(describeWait(kind, p[1], wantKind), "round %d (id %d): wait() called by %s gave %s %s, the spawned call's outcome is %s %s", ri, x, who, kind, show(p[1]), wantKind, show(wantVal))
+			want := fmt.Sprintf("%s %s", wantKind, show(wantVal))
+			if w.Ret == "rterr" {
+				want = fmt.Sprintf("a raised index error naming %d (the same text for every wait; first seen: %q)", x, rtMsg)
+			}
+			report(describeWait(kind, val, wantKind), "round %d (id %d): the wait performed by %s as %s gave %s %s, the spawned call's outcome is %s", ri, x, who, how, kind, show(val), want)
+		}
+		checkObs := func(who, how string, ob any) {
+			p, ok := asList(ob)
+			if !ok || len(p) != 2 {
+				report("malformed", "round %d (id %d): %s recorded %s for a wait", ri, x, who, show(ob))
+				return
+			}
+			tag, _ := p[0].(string)
+			switch tag {
+			case "s":
+				q, ok := asList(p[1])
+				if !ok || len(q) != 2 {
+					report("malformed", "round %d (id %d): %s recorded %s for a wait", ri, x, who, show(ob))
+					return
+				}
+				kind, _ := q[0].(string)
+				judgeOutcome(who, how, kind, q[1])
+			case "h":
+				if msg, isRaised := asRaised(p[1]); isRaised {
+					judgeOutcome(who, how, "raised", msg)
+				} else {
+					judgeOutcome(who, how, "val", p[1])
+				}
+			case "b":
+				// try(t.wait) without handler: the value, or nil when the wait raised
+				if wantKind == "raised" {
+					v.Events["concurrent_waits_checked"]++
+					if p[1] != nil {
+						report(describeWait("val", p[1], "raised"), "round %d (id %d): try(t.wait) by %s gave %s although the spawned call raised", ri, x, who, show(p[1]))
+					}
+				} else {
+					judgeOutcome(who, how, "val", p[1])
+				}
+			default:
+				report("malformed", "round %d (id %d): %s recorded %s for a wait", ri, x, who, show(ob))
+			}
 		}
 		wr, _ := asList(r[1])
 		seen := map[int]int{}
 		for _, e := range wr {
-			// e = ["val", [wid, r1, r2]] or ["raised", msg] when the waiter goroutine itself failed
+			// e = ["val", [wid, obs]] or ["raised", msg] when the waiter goroutine itself failed
 			p, ok := asList(e)
 			if !ok || len(p) != 2 {
 				report("malformed", "round %d (id %d): waiter entry %s", ri, x, show(e))
@@ -308,29 +448,43 @@ func judgeWaiters(s *Scenario, o *Obs, v *verdict) {
 				if strings.HasPrefix(msg, "panic:") {
 					what = "waiter-panic"
 				}
-				report(what, "round %d (id %d): a waiter goroutine ended with %s after calling wait() on the shared thread", ri, x, show(p[1]))
+				report(what, "round %d (id %d): a waiter goroutine ended with %s after waiting for the shared thread", ri, x, show(p[1]))
 				continue
 			}
 			t, ok := asList(p[1])
-			if !ok || len(t) != 3 {
-				report(describeWait("val", p[1], "val")+"-from-waiter", "round %d (id %d): a waiter goroutine delivered %s instead of [wid, first wait, second wait]", ri, x, show(p[1]))
+			if !ok || len(t) != 2 {
+				report(describeWait("val", p[1], "val")+"-from-waiter", "round %d (id %d): a waiter goroutine delivered %s instead of [wid, observations]", ri, x, show(p[1]))
 				continue
 			}
 			wid, _ := asInt(t[0])
 			seen[int(wid)]++
-			checkWait(fmt.Sprintf("waiter %d (first call)", wid), t[1])
-			checkWait(fmt.Sprintf("waiter %d (second call)", wid), t[2])
+			obs, _ := asList(t[1])
+			if wid < 1 || int(wid) > w.Waiters || len(obs) != len(w.Styles[wid-1]) {
+				report("malformed", "round %d (id %d): waiter %d recorded %s", ri, x, wid, show(t[1]))
+				continue
+			}
+			for k, ob := range obs {
+				checkObs(fmt.Sprintf("waiter %d (its wait #%d)", wid, k+1), w.Styles[wid-1][k], ob)
+			}
 		}
 		for i := 1; i <= w.Waiters; i++ {
 			if seen[i] != 1 && len(sigSeen) == 0 {
 				v.add("goroutine-result:count", "round %d (id %d): waiter %d reported %d results", ri, x, i, seen[i])
 			}
 		}
-		if w.MainIn {
-			checkWait("the spawner (while the waiters run)", r[2])
+		mobs, _ := asList(r[2])
+		all := append(append([]string{}, w.MainPre...), w.MainPost...)
+		if len(mobs) != len(all) {
+			report("malformed", "round %d (id %d): the spawner recorded %s", ri, x, show(r[2]))
+			continue
 		}
-		checkWait("the spawner (after joining the waiters)", r[3])
-		checkWait("the spawner (again)", r[4])
+		for k, ob := range mobs {
+			when := "after joining the waiters"
+			if k < len(w.MainPre) {
+				when = "while the waiters run"
+			}
+			checkObs(fmt.Sprintf("the spawner (its wait #%d, %s)", k+1, when), all[k], ob)
+		}
 		v.Events["shared_threads"]++
 	}
 }
